@@ -218,6 +218,8 @@ func (s *Sim) park(t *Task, point string, args []string) {
 }
 
 func (s *Sim) hookFault(point string, args []string) error {
+	// a fault point is also a scheduling point (no lock is held around I/O)
+	s.yieldAt(curGID(), "fault."+point, args)
 	if s.FaultOn == nil {
 		return nil
 	}
